@@ -29,6 +29,9 @@ impl StageResult {
     fn new(tool: &'static str, kind: &str) -> Self {
         StageResult { tool, kind: kind.to_string(), executions: 0, digests_compared: 0, processes: 0, reports: vec![], mismatches: vec![], inconclusive: None, wall_s: 0.0, detail: String::new() }
     }
+    pub fn empty() -> Self {
+        StageResult::new("none", "none")
+    }
     pub fn apply(self, prop: &str, st: &mut Stats, extra: &mut Vec<(String, Value)>) {
         st.count(&format!("{}_executions", self.tool), self.executions);
         st.count(&format!("{}_digests_equal_to_native", self.tool), self.digests_compared);
